@@ -27,7 +27,8 @@ PROPS["C16"] = {
     "level_note": "Trusted: the reference tokeniser (lib/reflex.go, ~100 lines written from the README token description), strconv for "
                   "number classification. Only spaces are varied as separators."
                   " Later widening: tab, line end and the byte 0xff are in the exhaustive alphabet; the reference tokeniser treats space, tab and line end as blanks, folds case without touching bytes that are not UTF-8, and abstains on other Unicode blanks."
-                  " Round 5: form feed joins the exhaustive alphabet (a blank the documentation does not mention: the reference abstains, the token-truth invariants still apply); the source span of a word is computed letter by letter (case folding may change the byte length of a letter); the native fuzz leg no longer filters its inputs.",
+                  " Round 5: form feed joins the exhaustive alphabet (a blank the documentation does not mention: the reference abstains, the token-truth invariants still apply); the source span of a word is computed letter by letter (case folding may change the byte length of a letter); the native fuzz leg no longer filters its inputs."
+                  " Round 6: the bytes 0xC3 and 0xA0 join the exhaustive alphabet (together the letter a-grave, whose last byte read alone is the Latin-1 no-break space); words ending in such letters in the spacing leg.",
     "rule": "leg Exhaustive: every string of length 1..L over the 25-symbol token alphabet "
             "{a 1 . space ' \" ` = ! < > ^ ~ & | ( ) [ ] , ; + - * /} (L=4 quick, L=5 thorough), each emitted exactly once; "
             "leg Spacing: rapid-generated token sequences (<=8 tokens: keywords in mixed case, names, numbers, floats, "
@@ -65,7 +66,8 @@ PROPS["C01"] = {
     "level_note": "Trusted: reference evaluator lib/refeval.go (README semantics; assumption A-div: int/int division truncates), "
                   "reference store. Corners the README leaves open (int() of non-numeric text, float rendering, overflow, "
                   "non-ASCII case mapping, BETWEEN with lower>=upper) are never generated."
-                  " Later widening: one case in six joins a predicate over a list value (IN over split()/list(), len, [n]); IN lists of 33-70 keys; stores up to 130 pairs; one integer store in six holds integers near the int64 limits (the reference abstains on arithmetic beyond 2^40); trailing semicolons.",
+                  " Later widening: one case in six joins a predicate over a list value (IN over split()/list(), len, [n]); IN lists of 33-70 keys; stores up to 130 pairs; one integer store in six holds integers near the int64 limits (the reference abstains on arithmetic beyond 2^40); trailing semicolons."
+                  " Round 6: one numeric comparison in three compares with the value its left side has on one of the stored pairs (on the boundary); one float store in four holds values that are not exactly representable (0.1, 0.3, 0.7).",
     "rule": "rapid: store kind x size {0..70} x batch size {1,2,3,5,32} x predicate depth 0..4 (comparisons, ^=, ~=, IN, BETWEEN, "
             "& | and or !, arithmetic, int/float/str/upper/lower/strlen/is_int/is_float/join/len(split)), literal on either side, "
             "`select * where P` and bare `where P`. Non-trivial = at least one stored pair satisfies P and at least one does not; "
@@ -179,7 +181,8 @@ PROPS["C03"] = {
                   "model (ORDER BY ties as multisets) and writes must leave equal stores. Statements may fail at run time (that is part of the domain).",
     "level_note": "No reference evaluator is involved: the two iteration modes are compared with each other, which is what the property states. "
                   "Row-ok/batch-error is allowed (row mode short-circuits & and |) and counted."
-                  " Row and batch iteration are compared under the SAME batch-size setting (statements that drive their child in chunks evaluate ahead according to the setting in either mode); rows are also compared across the two settings whenever both row runs complete.",
+                  " Row and batch iteration are compared under the SAME batch-size setting (statements that drive their child in chunks evaluate ahead according to the setting in either mode); rows are also compared across the two settings whenever both row runs complete."
+                  " Round 6: leg TestC03Dynamic - the templates of C06's dynamic leg (every operator family and function over json(value)['m'], member against member) over runs of pairs whose members are a number, a text, a Boolean, null, an array or an object: whenever batch iteration answers, row iteration must answer the same.",
     "rule": "rapid: store kind x size (0..70) x two batch sizes x statement (60% SELECT with aliases/aggregates/order/limit, 10% DELETE, 15% PUT, 15% REMOVE) "
             "with exotic constructs enabled. Non-trivial = both modes complete, the result has >= 2 rows or spans more than one chunk, and the "
             "statement uses a construct with a twin implementation (function, alias, index, aggregate, order, limit, write); "
@@ -206,7 +209,8 @@ PROPS["C04"] = {
     "level_note": "Trusted: reference evaluator (third leg only; the first two legs compare the engine's own evaluator before/after rewriting). "
                   "Floats are exactly representable (k/4) and small so equality is exact; literal zero divisors are refused statically and skipped."
                   " Later widening: floats that are not exactly representable (0.1, 0.2) and constant conversion calls (float(3), float('2'), int('7')) among the leaves. Pairs on which the reference reports a magnitude error (the original only evaluates by wrapping around int64) are skipped and counted."
-                  " Round 5: leg TestC04AggrFields - a constant Boolean combined (& | and or, either side, bare or inside str()) with an operand that holds an aggregate function, also under !: the statement must return the same rows as the same statement with the constant written as a predicate of the pair that cannot be folded (strlen(key) >= 0 / < 0), i.e. the statement without the rewrite.",
+                  " Round 5: leg TestC04AggrFields - a constant Boolean combined (& | and or, either side, bare or inside str()) with an operand that holds an aggregate function, also under !: the statement must return the same rows as the same statement with the constant written as a predicate of the pair that cannot be folded (strlen(key) >= 0 / < 0), i.e. the statement without the rewrite."
+                  " Round 6: every arithmetic shape is also placed in `e = v`, `e >= v`, `e <= v` with v the value of e on one of the pairs (a rewrite that moves e by one unit in the last place below a Boolean root changes the rows); the pairs hold 0.1, 0.3, 0.7 and 2.675.",
     "rule": "enumerated expressions placed as select field or inside a WHERE comparison (each emitted once) + rapid typed trees depth 1-4. "
             "Non-trivial = the rewrite changed the rendered expression (String() differs) and the original evaluates on at least one pair; "
             "distinct = distinct statements.",
@@ -304,7 +308,8 @@ PROPS["C14"] = {
                   "require number/string type, Cannot find function, arguments but got. JSON field access is excluded from the acceptance leg as the "
                   "property says. The acceptance leg only asserts acceptance for the sub-language of DESIGN.md §2.2."
                   " Later widening: leg TestC14Matrix runs every operator over every pair of operand forms of every static type (15 forms, as select field, as WHERE and as a field beside count(1) .. group by key): whatever the verdict, it must come at plan build - rejected with zero storage calls, or accepted and never failing with an operand-type error; raw-text forms for shapes the AST cannot express (faults in a second subscript, key in a put key, aggregates in aggregate arguments / GROUP BY / WHERE) and for shapes that must be accepted (Boolean literals under and/or, ! under comparisons, a Boolean name as the whole WHERE); half of the mutant hosts use the wider language (JSON cascades)."
-                  " Round 5: a JSON-typed operand form (json('{..}')) joins the matrix (16 forms).",
+                  " Round 5: a JSON-typed operand form (json('{..}')) joins the matrix (16 forms)."
+                  " Round 6: leg TestC14Forms draws, as text, families of faults the AST cannot express - a fault in the 2nd..4th subscript of a cascade (also on a named JSON field), an aggregate inside the argument of an aggregate (directly, below scalar calls, through a chain of names, the name also used outside the aggregate), an aggregate reached through GROUP BY or standing in WHERE / DELETE / PUT / REMOVE, a subscript behind a list element, a list or JSON field beside an aggregate. Every form comes with its control, the same text with the fault taken out: the form must be refused with zero storage calls AND the control must be accepted (a refused control is a violation of the converse sentence, and shows a form that would be refused for the wrong reason).",
     "rule": "deterministic fault x position grid (each cell once) + rapid mutants + rapid well-typed statements. Non-trivial = a mutant whose fault is "
             "not at the root of WHERE / a select field / a PUT or REMOVE operand, a grid cell, or a well-typed statement with at least two operators; "
             "distinct = distinct statements.",
@@ -330,9 +335,10 @@ PROPS["C17"] = {
                   "BindQuery the text has exactly query / caret / message lines, the window (minus '... ' / ' ...') is the stretch of the query that "
                   "puts query[Pos] exactly above the caret (end of the trimmed text for -1, first non-blank for offsets inside leading blanks), and the "
                   "message line is indented by the padding.",
-    "level_note": "Single-line queries only (the window logic is line oriented); crashes while rendering are C06's subject and are also reported here as violations of the render leg."
+    "level_note": "Rendering is checked for single-line queries only (the window logic is line oriented); crashes while rendering are C06's subject and are also reported here as violations of the render leg."
                   " The reference tokeniser abstains on Unicode blanks other than space, tab and line end (the engine's own token starts are accepted there)."
-                  " Round 5: blanks the documentation does not mention (form feed, vertical tab, NBSP, U+3000) in front of tokens, for one statement in four behind every space; where the reference abstains, no token start may lie ON a blank.",
+                  " Round 5: blanks the documentation does not mention (form feed, vertical tab, NBSP, U+3000) in front of tokens, for one statement in four behind every space; where the reference abstains, no token start may lie ON a blank."
+                  " Round 6: one statement in five is written over several lines (CRLF, LF, tabs): positions are checked, the line-oriented rendering is not; every error returned by BuildPlan, whatever its Go type, must point at 0, -1 or a token start.",
     "rule": "rapid legs Corrupt / RunTime / Typed (+ native fuzz executions in the thorough tier). Non-trivial = a positional error with Pos >= 0 in a "
             "query longer than 70 bytes or with leading blanks; distinct = distinct (query, padding mode).",
     "assumptions": ["Go toolchain and pgregory.net/rapid v1.3.0 are trusted", "token starts are taken from the engine lexer (validated by C16) and from the reference tokeniser"],
@@ -356,7 +362,8 @@ PROPS["C07"] = {
                   "numerically across int/float and numeric text of group columns, false before true) and the written direction. A lone "
                   "`order by key asc` must leave the sequence unchanged. The un-ordered base itself is cross-checked against the reference evaluator.",
     "level_note": "Trusted: comparators in lib/refselect.go, reference select. Ties may come in any order (only sortedness and permutation are demanded)."
-                  " Later widening: the harness comparator is exact (big.Float); float stores hold NaN in one case of three - rows with a NaN order key are exempt from the adjacency check, all other rows must be sorted among themselves; integers near the int64 limits.",
+                  " Later widening: the harness comparator is exact (big.Float); float stores hold NaN in one case of three - rows with a NaN order key are exempt from the adjacency check, all other rows must be sorted among themselves; integers near the int64 limits."
+                  " Round 6: half of the statements carry a chain of name-only fields, one chain in three ending in a concatenation on a text name (a field whose type is only known once the name inside it is resolved).",
     "rule": "rapid: store x select list with named text/int/float/bool fields (25% aggregates with GROUP BY) x 1-3 ORDER BY keys x directions x batch {2,3,32} x {row,batch}. "
             "Non-trivial = at least 3 rows, at least one strictly ordered adjacent pair, and (for more than one key) at least one tie on the first key; "
             "distinct = distinct (query, store, batch size).",
@@ -405,7 +412,8 @@ PROPS["C09"] = {
                   "structurally. Mixed int/float aggregate arguments, float group values and non-UTF-8 text under json_arrayagg are outside the domain. "
                   "Every non-aggregate select field is one of the GROUP BY expressions."
                   " Later widening: the reference reads numeric text and defines sum/avg/min/max of groups that mix integers and floats (min/max: by value, either kind accepted); float-valued and Boolean group columns; Boolean aggregate fields with a constant side; group values and scalar calls around aggregates (strlen(key) + count(1), str(count(1))); leg TestC09DynamicGroups groups by a JSON member that is a number, a text, a Boolean or null and compares group membership with equality of (kind, value)."
-                  " Round 5: the Boolean aggregate field may sit under a !.",
+                  " Round 5: the Boolean aggregate field may sit under a !."
+                  " Round 6: whole numbers beyond 2^53 and 2^63 (1e19, 2e19, -4e19) among the JSON numbers of TestC09DynamicGroups.",
     "rule": "rapid legs TestC09 (general) and TestC09Collide. Non-trivial = at least 2 groups and (a group with at least 2 pairs, or two distinct group "
             "tuples with equal concatenation); distinct = distinct (query, store, batch size).",
     "assumptions": COMMON_ASSUMPTIONS,
@@ -534,7 +542,8 @@ PROPS["C19"] = {
                   "data race can be missed. Package switches (PlanBatchSize, EnableFieldCache) are set before the goroutines start and only read afterwards. "
                   "A race failure is not shrinkable; the statement set is written as the replay."
                   " Later widening: one statement in ten uses the short form without a select part."
-                  " Round 5: aggregate statements whose quantile percent / group_concat separator is given through a chain of named constant fields (evaluated when the plan is built).",
+                  " Round 5: aggregate statements whose quantile percent / group_concat separator is given through a chain of named constant fields (evaluated when the plan is built)."
+                  " Round 6: what a plan says about itself (Explain lines, field names and types) is part of the compared outcome; one statement in ten uses names the process has not printed before (in plan descriptions and in refusal messages).",
     "rule": "rapid statement sets x GOMAXPROCS x repeats. Non-trivial = at least 2 goroutines and at least 2 of the statements are aggregate or alias "
             "statements; distinct = distinct (statement set, modes, GOMAXPROCS, store).",
     "assumptions": COMMON_ASSUMPTIONS + ["the Go race detector's happens-before analysis is trusted"],
